@@ -9,13 +9,13 @@ namespace Desync.LFS
 /-! ### kinds of objects -/
 
 def IsDir (o : Option Obj) : Prop := ∃ a m, o = some (.dir a m)
-def NotLink (o : Option Obj) : Prop := ∀ t a, o ≠ some (.symlink t a)
+def NotLink (o : Option Obj) : Prop := ∀ t a m, o ≠ some (.symlink t a m)
 
 theorem IsDir.notLink {o : Option Obj} (h : IsDir o) : NotLink o := by
   obtain ⟨a, m, rfl⟩ := h
-  intro t a' h; cases h
+  intro t a' m' h; cases h
 
-theorem notLink_none : NotLink none := by intro t a h; cases h
+theorem notLink_none : NotLink none := by intro t a m h; cases h
 
 theorem isDir_iff_any {o : Option Obj} : o.any Obj.isDir = true ↔ IsDir o := by
   cases o with
@@ -270,7 +270,7 @@ theorem walk_straight (fs : FS) (follow : Bool) :
           omega
         simp only at h
         split at h
-        · rename_i t a hg
+        · rename_i t a lm hg
           split at h
           · rename_i hcond
             simp only [Bool.and_eq_true, decide_eq_true_eq, Bool.not_eq_eq_eq_not, Bool.not_true] at hcond
@@ -284,8 +284,8 @@ theorem walk_straight (fs : FS) (follow : Bool) :
             · subst hr
               have hf : follow = true := by
                 cases follow <;> simp at hcond ⊢
-              exact hL hf (by simp) t a hg
-            · exact hS [c] rest rfl (by simp) hr t a hg
+              exact hL hf (by simp) t a lm hg
+            · exact hS [c] rest rfl (by simp) hr t a lm hg
         · rename_i a m hg
           obtain ⟨e, hd⟩ := walk_straight fs follow rest fuel (cur ++ [c]) rp hNr hS.tail
             (by
@@ -345,10 +345,10 @@ theorem walk_error_follow (fs : FS) :
             exact walk_error_follow fs rest fuel (cur ++ [c]) e hNr hS.tail h
           | file d a m => simp only [hg] at h ⊢; exact h
           | dev ma mi a m => simp only [hg] at h ⊢; exact h
-          | symlink t a =>
+          | symlink t a lm =>
             by_cases hr : rest = []
             · subst hr; simp [hg] at h
-            · exact absurd hg (hS [c] rest rfl (by simp) hr t a)
+            · exact absurd hg (hS [c] rest rfl (by simp) hr t a lm)
 
 /-! ### `resolve` -/
 
